@@ -23,27 +23,32 @@ Theorem C32_count_exact :
 Proof. exact sample_count_exact. Qed.
 
 (** Whenever a duration is accepted ("aligns"), the count is the product rounded to the nearest
-    integer (ties away from zero), it fits u32, and the misalignment is under 1 / (100 rate). *)
+    integer (ties away from zero), it fits u32, and the misalignment in seconds is under
+    1 / (100 rate). *)
 Theorem C32_count_rounds :
   forall (d r : Q) (n : N),
     sample_count d r = inr n ->
     Z.of_N n = round_half_away (d * r) /\ (Z.of_N n < U32_MAX)%Z /\
-    (r == 0 \/ Qabs (d * r - inject_Z (Z.of_N n)) < / (r * 100)).
+    (r == 0 \/ Qabs ((d * r - inject_Z (Z.of_N n)) / r) < / (r * 100)).
 Proof. exact sample_count_sound. Qed.
+
+(** ... which for a positive rate is the documented tolerance: 1% of a sample. *)
+Theorem C32_count_tolerance :
+  forall (d r : Q) (n : N),
+    0 < r -> sample_count d r = inr n -> Qabs (d * r - inject_Z (Z.of_N n)) < 1 # 100.
+Proof. exact sample_count_tolerance. Qed.
 
 Theorem C32_round_nearest :
   forall q : Q, Qabs (q - inject_Z (round_half_away q)) <= 1 # 2.
 Proof. exact round_half_away_nearest. Qed.
 
-(** FINDING (known finding `misalignment-tolerance-units`): the documented tolerance is "1% of a
-    sample", but the code compares the misalignment (in samples) with 1 / (100 rate) (a time in
-    seconds).  Already over exact rationals a duration 0.1% of a sample off at 8 Hz is rejected; in
-    f64, at 1 GS/s the tolerance is 1e-11 samples, below the rounding error of duration * rate for
-    durations above about 0.1 ms (the harness exhibits 0.000250624 s at 1e9 Hz). *)
-Theorem C32_tolerance_is_not_one_percent :
+(** History (finding `misalignment-tolerance-units`, repaired by /repo commit b8fb6ef): the rule
+    before the fix, [sample_count_unfixed], compared the misalignment in samples with the tolerance
+    in seconds and rejected a duration 0.78% of a sample off at 8 Hz; the fixed rule accepts it. *)
+Example C32_unfixed_tolerance_was_not_one_percent :
   exists d r : Q,
     0 < r /\ Qabs (d * r - inject_Z (round_half_away (d * r))) < 1 # 100 /\
-    sample_count d r = inl ErrMisaligned.
+    sample_count_unfixed d r = inl ErrMisaligned /\ sample_count d r = inr 8%N.
 Proof. exists (1025 # 1024), (8 # 1). vm_compute. repeat split; reflexivity. Qed.
 
 Close Scope Q_scope.
@@ -222,5 +227,6 @@ Example C32_nonvacuous :
   shape_c w c (8 # 1)%Q = OSamples SSamples 6%N /\
   shape_p (WPad PErfSquare [None] (3 # 16)%Q (1 # 8)%Q) (embed_cq c) (8 # 1)%Q = OPlaceholder SSamples 6%N /\
   sample_count (3 # 8)%Q (1 # 1)%Q = inl ErrMisaligned /\
+  sample_count (1025 # 1024)%Q (1 # 1)%Q = inr 1%N /\
   sample_count (4294967295 # 1)%Q (1 # 1)%Q = inl ErrRange.
 Proof. vm_compute. repeat split; reflexivity. Qed.
